@@ -27,12 +27,26 @@ def sample_fn(rec):
     return {"file": rec["file"], "expected_view": rec["view"], "status": rec["status"]}
 
 
+# beyond the exhaustive bound: random walks of the same specification over longer histories (every prefix is a file)
+WALKS = {
+    "quick": [("MC_C02_q", "MC_C02_be.cfg", {"MaxSegs": 7, "KVals": "{1, 2}"}, ["eager", "lazy"], 4, 16, 8)],
+    "thorough": [("MC_C02_q", "MC_C02_be.cfg", {"MaxSegs": 10, "KVals": "{1, 2}"}, ["eager", "lazy"], 4, 320, 11),
+                 ("MC_C02_q", "MC_C02_str.cfg", {"MaxSegs": 8}, ["eager", "lazy"], 1, 160, 9)],
+}
+
+
 def run(tier):
     chk = Check("C02", tier)
     for (module, cfg, ov, modes, rots) in CONFIGS[tier]:
         run_config(chk, module, cfg, ov,
                    lambda rec, i: {"rec": rec, "seed": chk.seed, "modes": modes, "rot": (i + chk.seed) % rots},
                    "harness.segments", "replay_segments_case", sample_fn=sample_fn)
+    for (module, cfg, ov, modes, rots, walks, depth) in WALKS[tier]:
+        run_config(chk, module, cfg, ov,
+                   lambda rec, i: {"rec": rec, "seed": chk.seed, "modes": modes, "rot": (i + chk.seed) % rots},
+                   "harness.segments", "replay_segments_case", sample_fn=sample_fn, simulate=walks, depth=depth,
+                   expect_all_states=False,
+                   label="%s %s simulate %d walks of depth %d" % (cfg, ov, walks, depth))
     # TRACE (code -> spec): the repository's own scenario / data files, parsed by the independent structural parser,
     # are run through the reader model (Trace_Segments.tla) and compared with what TdmsFile.read observed
     from ..segtrace import run_trace
